@@ -131,6 +131,55 @@ class LineCov:
         return rep
 
 
+class LibraryDidNotTerminate(Exception):
+    """Raised (by the watchdog) inside a call into the library that has not returned within the limit: a hang of the real code
+    on a concrete input becomes an exception the sweep records like any other wrong outcome, instead of hanging the check."""
+
+
+def install_watchdog(limit_s):
+    """Wrap the public entry points of soupsieve (module functions and SoupSieve methods) with a SIGALRM watchdog.  Main thread
+    only (signals are delivered there); nested calls share the outer timer; the previous SIGALRM handler is restored after
+    every call, so checks that use alarms of their own are not disturbed."""
+    import functools
+    import signal
+    import threading
+    import soupsieve as sv
+    from soupsieve import css_match as cm
+    state = {'depth': 0}
+
+    def handler(signum, frame):
+        raise LibraryDidNotTerminate(f'the call has not returned after {limit_s} s')
+
+    def guard(fn):
+        @functools.wraps(fn)
+        def w(*a, **k):
+            if state['depth'] or threading.current_thread() is not threading.main_thread():
+                return fn(*a, **k)
+            state['depth'] += 1
+            old = signal.signal(signal.SIGALRM, handler)
+            signal.setitimer(signal.ITIMER_REAL, limit_s)
+            try:
+                r = fn(*a, **k)
+                if hasattr(r, '__next__') and not isinstance(r, (list, tuple)):
+                    r = list(r)          # iselect: run the generator under the timer
+                    return iter(r)
+                return r
+            finally:
+                signal.setitimer(signal.ITIMER_REAL, 0)
+                signal.signal(signal.SIGALRM, old)
+                state['depth'] -= 1
+        w._soupverif_guarded = True
+        return w
+    for name in ('select', 'select_one', 'iselect', 'match', 'filter', 'closest', 'compile', 'escape'):
+        f = getattr(sv, name)
+        if not getattr(f, '_soupverif_guarded', False):
+            setattr(sv, name, guard(f))
+    for name in ('select', 'select_one', 'iselect', 'match', 'filter', 'closest'):
+        f = getattr(cm.SoupSieve, name)
+        if not getattr(f, '_soupverif_guarded', False):
+            setattr(cm.SoupSieve, name, guard(f))
+
+
 _LINECOV = None
 ESCALATION = None      # set by run_check when the source differs from the blessed one (change-directed search)
 
